@@ -229,6 +229,8 @@ def build(repo, outdir, stub=(), nohints=()):
             else:
                 handwritten_clone.append((nm, RNG, 'm_bound'))
     root.append(maxsafe + '\n')
+    mlen = re.search(r'^pub const MAX_LENGTH: usize = ([0-9_]+);', LIB.code, re.M)
+    root.append((mlen.group(0) if mlen else '// MAX_LENGTH not found') + '\n')
     # error types used by the lifted closures of number() and range_set() (R11: doc comments and the attributes of the
     # thiserror / miette derive macros are stripped; only the shape of the types matters to the contracts)
     err_types_ok = True
@@ -625,6 +627,108 @@ impl OrdSpecImpl for Version { open spec fn obeys_cmp_spec() -> bool { true } op
             if sem in ('PartialEq', 'Eq', 'PartialOrd', 'Ord', 'Hash') and sem not in expected.get(ty, ()) and not (ty == 'Identifier' and sem in ident_handwritten + ['Eq']):
                 g.lost_items.append(('impl ' + ty, 'hand written `impl %s for %s` where the model assumes the derived one' % (tr, ty)))
 
+
+    # ---------------------------------------------------------------- text shell, version grammar (C05): the grammar functions of
+    # src/lib.rs, whole and verbatim, under the assumed winnow contracts (A15).  Layout: m_winnow (the combinator contracts),
+    # m_vspec (reference grammar + lemmas), m_vtwins (the caller's view of each grammar function: contract without body, and the
+    # axioms "as a parser value the function accepts what its contract says"), one private module per function with the real body.
+    # The split is what modular verification means anyway (a caller sees the callee's contract); it is also needed: a function that
+    # is used as a parser value *and* whose body uses the blanket impl for fn items sits in a dependency cycle in which Verus drops
+    # the trait-bound axioms.
+    g.private_mods = set()
+    g.emit('m_winnow', P('winnow_shim.rs'))
+    g.emit('m_vspec', P('vgrammar_spec.rs'))
+    g.emit('m_vtwins', K.grammar_twins())
+    g.emit('m_vtwins', K.PARSE_SPEC)
+
+    def u_extras_type():
+        sl = item(LIB, r'^enum Extras \{', 'enum Extras')
+        pubify(sl)
+        g.rec(sl, 'type Extras', 'm_vtwins', 'type')
+        g.emit('m_vtwins', sl.text)
+        g.emit('m_vtwins', K.EXTRAS_SPEC)
+        g.emit('m_vtwins', g.impl_block(LIB, r'^impl Extras \{', 'impl Extras', {'values': dict(ret='r', contract='        ensures extras_vals(Some(self), r),')}, 'Extras', 'm_vtwins'))
+    g.unit('Extras::values', u_extras_type)
+
+    def grammar_fn(n):
+        def u():
+            d = K.GRAMMAR[n]
+            f = top_fn(LIB, n)
+            sig_re = r"(?:pub(?:\(crate\))? )?fn %s<'s>\(\s*input: &mut &'s str,?\s*\) -> PResult<%s, SemverParseError<&'s str>> \{" % (re.escape(n), re.escape(d['O']))
+            if not re.match(sig_re, ' '.join(f.verbatim[:f.verbatim.index('{') + 1].split()).replace('( input', '(input').replace("str, )", "str)")):
+                raise AnchorLost('signature of grammar function %s' % n)
+            body = f.verbatim[f.verbatim.index('{'):]
+            lost = []
+            for (a, b, why) in d['rewrites']:
+                if hasattr(a, 'sub'):
+                    if not a.search(body):
+                        lost.append('%s: closure annotation dropped, its anchor /%s/ is gone' % (n, a.pattern[:50]))
+                        continue
+                    body = a.sub(b, body)
+                    f.rewrites.append('%s' % why)
+                    continue
+                if a not in body:
+                    lost.append('%s: closure annotation dropped, its anchor `%s` is gone' % (n, a.split('\n')[0][:50]))
+                    continue
+                body = body.replace(a, b)
+                f.rewrites.append('%s: `%s`' % (why, a.split('\n')[0][:60]))
+            mod = 'm_vg_' + n
+            g.private_mods.add(mod)
+            head = K.grammar_sig(n) + '\n' + (K.GRAMMAR_CONTRACT % (n, n)) + '\n'
+            if n in g.stub:
+                g.stubbed.append(n)
+                g.rec(f, n, mod, 'fn', dropped='BODY NOT VERIFIED (stubbed as external_body)')
+                g.emit(mod, '#[verifier::external_body]\n' + head + '{ unimplemented!() }\n')
+                return
+            if n in getattr(g, 'nohints', ()):
+                g.lost_hints.append('%s: all in-body annotations dropped (they no longer fit the code)' % n)
+                text = head + '{\n    broadcast use winnow_defs, grammar_defs;\n' + f.verbatim[f.verbatim.index('{') + 1:]
+            else:
+                g.lost_hints += lost
+                text = head + '{\n    broadcast use winnow_defs, grammar_defs;\n    ' + d['entry'] + body[1:]
+            g.rec(f, n, mod, 'fn', dropped='nothing of the function; the winnow combinators it calls are assumed contracts (A15)')
+            g.emit(mod, text + '\n')
+        return u
+    for n in K.GRAMMAR_ORDER:
+        g.unit(n, grammar_fn(n))
+
+    def u_version_parse():
+        lo, hi = impl_span(LIB, r'^impl Version \{')
+        sl = fn_in(LIB, lo, hi, 'parse', 'Version::parse')
+        t = sl.verbatim
+        m = re.match(r"\s*pub fn parse<S: AsRef<str>>\(input: S\) -> Result<Version, SemverError> \{\s*let mut input = input\.as_ref\(\);", t)
+        if not m:
+            raise AnchorLost('Version::parse: `pub fn parse<S: AsRef<str>>(input: S) -> Result<Version, SemverError> { let mut input = input.as_ref(); ..`')
+        rest = t[m.end():]
+        sl.rewrites.append("R15 `parse<S: AsRef<str>>(input: S)` + `let mut input = input.as_ref();` -> `parse_str<'s>(text: &'s str)` + `let mut input = text;`")
+        # R16: every `SemverError { .. }` literal -> opaque constructor
+        code = mask_code(rest)
+        out, pos, nrep = [], 0, 0
+        for mm in re.finditer(r'\bSemverError\s*\{', code):
+            if mm.start() < pos:
+                continue
+            e = match_brace(code, mm.end() - 1)
+            out.append(rest[pos:mm.start()])
+            out.append('verif_semver_error()')
+            pos = e
+            nrep += 1
+        out.append(rest[pos:])
+        rest = ''.join(out)
+        sl.rewrites.append('R16 %d `SemverError { .. }` literals -> verif_semver_error() (error payload: C17, not under contract)' % nrep)
+        mod = 'm_vg_parse'
+        g.private_mods.add(mod)
+        head = "impl Version {\n    pub fn parse_str<'s>(text: &'s str) -> (r: Result<Version, SemverError>)\n" + K.PARSE_CONTRACT + '\n'
+        if 'Version::parse_str' in g.stub:
+            g.stubbed.append('Version::parse_str')
+            g.rec(sl, 'Version::parse_str', mod, 'fn', dropped='BODY NOT VERIFIED (stubbed as external_body)')
+            g.emit(mod, head.replace('    pub fn parse_str', '    #[verifier::external_body]\n    pub fn parse_str') + '    { unimplemented!() }\n}\n')
+            return
+        entry = K.PARSE_ENTRY if 'Version::parse_str' not in getattr(g, 'nohints', ()) else 'broadcast use winnow_defs, grammar_defs;\n        '
+        g.rec(sl, 'Version::parse_str', mod, 'fn', dropped='generic AsRef<str> entry (R15), the payload of the errors (R16)')
+        g.emit(mod, head + '    {\n        ' + entry + 'let mut input = text;' + rest + '\n}\n')
+    g.unit('Version::parse_str', u_version_parse)
+    g.emit('m_vprops', P('vprops.rs'))
+
     g.shape = source_shape(g, LIB, RNG)
 
     # ---------------------------------------------------------------- m_props / m_canary
@@ -635,7 +739,8 @@ impl OrdSpecImpl for Version { open spec fn obeys_cmp_spec() -> bool { true } op
     # ---------------------------------------------------------------- assemble
     out = ['\n'.join(root)]
     for mod in g.order:
-        out.append('pub use %s::*;' % mod)
+        if mod not in getattr(g, 'private_mods', ()):
+            out.append('pub use %s::*;' % mod)
     for mod in g.order:
         out.append('pub mod %s {\nuse super::*;\n%s\n} // mod %s\n' % (mod, '\n'.join(g.mods[mod]), mod))
     out.append('} // verus!\nfn main() {}\n')
@@ -887,7 +992,7 @@ def scan_trusted(text):
             out.append('external_body fn %s%s' % (m.group(1) if m else '?', (' in impl ' + ctx) if ctx and 'clone' in (m.group(1) if m else '') else ''))
         elif re.search(r'\b(assume|admit)\s*\(', s):
             out.append('ASSUME/ADMIT: ' + s[:100])
-        elif 'pub axiom fn' in s or s.startswith('axiom fn'):
+        elif re.search(r'\baxiom fn\b', s):
             m = re.search(r'axiom fn (\w+)', s)
             out.append('axiom ' + m.group(1))
         elif '#[verifier::external]' in s:
